@@ -164,8 +164,12 @@ func (m *Model) CompareShard(w *World, shard int) []Mismatch {
 
 // WellFormed is the C15 scan of one shard: layouts, decodability, positivity, metadata/key agreement, duplicate roles,
 // counter not below the highest nonce issued.
-func (m *Model) WellFormed(w *World, shard int) []Clause {
+func (m *Model) WellFormed(w *World, shard int, diff []DiffEntry) []Clause {
 	var out []Clause
+	changed := map[string]bool{}
+	for _, d := range diff {
+		changed[d.Account+"\x00"+d.Key] = true
+	}
 	bad := func(sig, f string, a ...interface{}) {
 		out = append(out, clause([]string{"C15"}, "wellformed/"+sig, f, a...))
 	}
@@ -202,6 +206,16 @@ func (m *Model) WellFormed(w *World, shard int) []Clause {
 				}
 				if t.Value.Sign() < 0 {
 					out = append(out, clause([]string{"C15", "C02"}, "wellformed/negative-balance", "%s holds the negative balance %v at %q", shortAddr(a.Addr), t.Value, sfx))
+				}
+				if t.Value.Sign() == 0 && isFrozenProps(t.Properties) && rest != "" && t.Meta == nil && info.Kind != "F" {
+					// the freeze flag of a single (token, nonce) at an account that holds none of it: the same carrier entry
+					// as for a fungible token, but under an NFT key, where the statement allows neither a zero balance nor
+					// an entry without metadata.  Reported once, by the call that wrote it (KNOWN_FINDINGS.txt).
+					if changed[addr+"\x00"+k] {
+						out = append(out, Clause{Props: []string{"C15"}, Sig: "wellformed/frozen-flag-carrier-under-nft-key", NoCut: true,
+							Msg: sprintf("%s stores {value 0, frozen, no metadata} at the NFT key %q: a freeze of a single (token, nonce) reached an account that holds none of it", shortAddr(a.Addr), sfx)})
+					}
+					continue
 				}
 				if t.Value.Sign() == 0 && !(isFrozenProps(t.Properties) && rest == "" && t.Meta == nil) {
 					bad("zero-balance-stored", "%s stores a zero balance at %q without a frozen flag", shortAddr(a.Addr), sfx)
@@ -339,7 +353,7 @@ func (m *Model) Conservation(w *World) []Clause {
 			want = new(big.Int)
 		}
 		if total.Cmp(want) != 0 {
-			out = append(out, clause(pC01, "conservation", "key %q: accounts + undelivered transfers = %v, supply (issued + minted - burnt - wiped) = %v", k, total, want))
+			out = append(out, clause([]string{"C01", "C02"}, "conservation", "key %q: accounts + undelivered transfers = %v, supply (issued + minted - burnt - wiped) = %v", k, total, want))
 		}
 	}
 	return out
